@@ -151,11 +151,10 @@ func oracle(c qcase.Case) (evid.Info, error) {
 		info.Skip = "translate-rejected"
 		return info, nil
 	case errOpt != nil:
-		info.Skip = "only-optimised-rejected"
-		return info, nil
+		// whether a query is translated at all must not depend on the optimiser either
+		return info, fmt.Errorf("only the optimised translation of %q is rejected (%v); the translation without optimisation succeeds", c.Query, errOpt)
 	case errUn != nil:
-		info.Skip = "only-unoptimised-rejected"
-		return info, nil
+		return info, fmt.Errorf("only the translation WITHOUT optimisation rejects %q (%v); with optimisation DAWGS translates it to\n%s", c.Query, errUn, optRes.SQL)
 	}
 	opt := translated{sql: optRes.SQL, params: optRes.Params, raw: optRes.Raw}
 	for _, l := range opt.raw.Optimization.Lowerings {
@@ -214,9 +213,27 @@ func oracle(c qcase.Case) (evid.Info, error) {
 	gotUn, skipUn := run(db, unopt)
 	if skipOpt != "" || skipUn != "" {
 		staticOpt, staticUn := strings.HasPrefix(skipOpt, "sql-static-error"), strings.HasPrefix(skipUn, "sql-static-error")
+		if (staticOpt && lazilyDetected(skipOpt)) || (staticUn && lazilyDetected(skipUn)) {
+			// pgsim reports operator / function / cast type errors when the expression is first evaluated, PostgreSQL
+			// at parse analysis: whether only one side shows such an error depends on the rows, not on the statement
+			info.Skip = "type-error-detected-at-evaluation(C03)"
+			return info, nil
+		}
 		switch {
 		case staticOpt && skipUn == "":
-			info.Skip = "only-optimised-static-error(C03)"
+			// The unoptimised SQL executes, the optimised SQL is rejected by PostgreSQL's parse analysis: the
+			// optimisation changed what the query returns. Static validity as such is C03's subject: shapes that
+			// C03 lists (whatever the status of its finding) are left to it.
+			if id := qcase.C03ExcludedBy(model, func(string) bool { return true }); id != "" {
+				info.Skip = "only-optimised-static-error(" + id + ")"
+			} else if stillInvalid, reason := invalidWithoutListedLowerings(model, c.Params, mapper, db); !stillInvalid {
+				// attributed to a lowering / rule for which C03 lists a static-validity finding
+				info.Skip = "only-optimised-static-error(C03: suffix pushdown / self-loop step after reordering or exact-range lowering)"
+			} else {
+				skipOpt = reason
+				return info, fmt.Errorf("only the optimised SQL for %q is rejected by PostgreSQL (%s); the unoptimised SQL executes\noptimised (lowerings %v):   %s\nunoptimised: %s\nparams: %v",
+					c.Query, skipOpt, info.Classes, opt.sql, unopt.sql, opt.params)
+			}
 		case staticUn && skipOpt == "":
 			info.Skip = "only-unoptimised-static-error(C03)"
 		case staticOpt && staticUn:
@@ -297,6 +314,40 @@ var allLowerings = []string{
 	optimize.LoweringLimitPushdown, optimize.LoweringExpansionSuffixPushdown, optimize.LoweringPredicatePlacement,
 	optimize.LoweringCountStoreFastPath, optimize.LoweringCollectIDMembership, optimize.LoweringAggregateTraversalCount,
 	optimize.LoweringExactRangeExpansion, optimize.LoweringPathRelationshipPredicate,
+}
+
+// lazilyDetected reports whether a pgsim static error is one of the type errors that pgsim only meets when it
+// evaluates the expression (pgsim/doc.go, residual assumptions), as opposed to name resolution errors.
+func lazilyDetected(skip string) bool {
+	for _, marker := range []string{"operator does not exist", "function ", "argument must be type", "cannot cast", "could not determine", "must be type"} {
+		if strings.Contains(skip, marker) {
+			return true
+		}
+	}
+	return false
+}
+
+// invalidWithoutListedLowerings translates once more with the optimisations switched off for which C03 lists
+// static-validity findings (the ExpansionSuffixPushdown and ExactRangeExpansion lowerings, the
+// ConservativePatternReordering rule; see props/TRANSLATION_FINDINGS.md) and reports whether PostgreSQL still rejects
+// the SQL statically. If it does, one of the remaining lowerings produces invalid SQL where the plain translation is
+// valid - no listed finding accounts for that.
+func invalidWithoutListedLowerings(model *cypher.RegularQuery, params map[string]any, mapper pgsql.KindMapper, db *pgsim.DB) (bool, string) {
+	plan, err := optimize.NewOptimizer(optimize.InboundTraversalReversalRule{}, optimize.PredicateAttachmentRule{}).Optimize(model)
+	if err != nil {
+		return false, ""
+	}
+	plan.LoweringPlan.ExpansionSuffixPushdown = nil
+	plan.LoweringPlan.ExactRangeExpansion = nil
+	tr, err := translateWithPlan(plan, params, mapper)
+	if err != nil {
+		return false, ""
+	}
+	_, skip := run(db, tr)
+	if strings.HasPrefix(skip, "sql-static-error") {
+		return true, skip + " (also with suffix pushdown, exact-range lowering and pattern reordering switched off)"
+	}
+	return false, ""
 }
 
 // hasSkipOrLimit reports whether any WITH or RETURN of the query carries SKIP or LIMIT.
